@@ -91,11 +91,14 @@ def typeOf (name : String) : Option String := (schema.find? (·.1 = name)).map (
 /-- one `path=token` pair of the document ↦ an Entry. A path below a leaf means
     the leaf was given a JSON object (ill-typed); a section given a scalar is
     silently ignored by the walk. -/
-def entryOf (pair : String) : Entry :=
+def entryOf (cfg : Cfg) (pair : String) : Entry :=
   match pair.splitOn "=" with
   | [path, tok] =>
     match typeOf path with
-    | some ty => (match decode ty tok with
+    | some ty =>
+      -- `cur`: the client posts the setting back with the value the server reported (its configured value)
+      if tok = "cur" then (match baseOf cfg path with | some v => .set path v | none => .unknown path)
+      else (match decode ty tok with
         | some v => .set path v
         | none => .illTyped path)
     | none =>
@@ -138,6 +141,9 @@ def between (x a b : String) : String :=
   | _ :: r :: _ => (r.splitOn b).headD ""
   | _ => ""
 
+/-- does the comma-separated list `l` contain the item `x`? -/
+def has (l x : String) : Bool := (("," ++ l ++ ",").splitOn ("," ++ x ++ ",")).length > 1
+
 structure CfState where
   st : State := { cfg := defaults, file := serialize defaults, restartNeeded := false }
 
@@ -150,7 +156,7 @@ def step (cs : CfState) (fs : List String) (obs : String) : CfState × String ×
     let (st', notes) := overwrite cs.st name (parseTokVal tok)
     ({ st := st' }, s!"notes=[{notesStr notes}] {stateStr st'}", "ok")
   | ["cf", "update", pairs, lim] =>
-    let doc := if pairs = "-" then [] else (pairs.splitOn ",").map entryOf
+    let doc := if pairs = "-" then [] else (pairs.splitOn ",").map (entryOf cs.st.cfg)
     let (st', status, notes) := update cs.st doc (lim = "0")
     let res := match status with | .failed => "failed" | .success => "success" | .restartRequired => "restart"
     let m := s!"{res} notes=[{notesStr notes}] {stateStr st'}"
@@ -171,6 +177,9 @@ def step (cs : CfState) (fs : List String) (obs : String) : CfState × String ×
       else if overridden.any (fun c => c.override ≠ some c.base && (match st'.cfg.find? (·.name = c.name) with | some c' => c'.override ≠ some c'.base | none => false) &&
           (("," ++ fileI ++ ",").splitOn ("," ++ c.name ++ "=" ++ renderVal c.read ++ ",")).length > 1 && implFailed = false && (doc.all (fun e => match e with | .set n _ => n ≠ c.name | _ => true))) then "bad:command-line-override-written-to-file"
       else if !implFailed && status = .failed then "bad:unworkable-or-invalid-update-accepted"
+      else if !implFailed && cs.st.cfg.any (fun c => (doc.all (fun e => match e with | .set n _ => n ≠ c.name | _ => true)) &&
+          (!(has readsI (c.name ++ "=" ++ renderVal c.read)) || !(has fileI (c.name ++ "=" ++ renderVal c.base)))) then "bad:accepted-update-changed-a-setting-it-did-not-address"
+      else if !implFailed && doc.any (fun e => match e with | .set n v => known cs.st.cfg n && !(has fileI (n ++ "=" ++ renderVal v)) | _ => false) then "bad:accepted-update-is-not-what-the-next-start-loads"
       else "ok"
     ({ st := st' }, m, v)
   | ["cf", "trywork"] =>
